@@ -42,13 +42,16 @@ def run_call(c, variant, A):
     use_predict = (variant // 16) % 2 == 1
     kw = dict(device='cpu') if use_predict else dict(func=capture)
     model = Identity()
+    # the flag as the caller may hold it: a Python bool, a numpy bool (e.g. from an array or a DataFrame column) or 0 / 1
+    import numpy
+    left = [c["left"], numpy.bool_(c["left"]), int(c["left"])][(variant // 3) % 3]
     try:
         if c["op"] == "substitution":
             yb, ya = ve.substitution_effect(model, x, R, **kw)
         elif c["op"] == "deletion":
-            yb, ya = ve.deletion_effect(model, x, R, left=c["left"], **kw)
+            yb, ya = ve.deletion_effect(model, x, R, left=left, **kw)
         else:
-            yb, ya = ve.insertion_effect(model, x, R, left=c["left"], **kw)
+            yb, ya = ve.insertion_effect(model, x, R, left=left, **kw)
         b, a = dec_batch(yb, A), dec_batch(ya, A)
         if b is None or a is None:
             ev["valid"] = False
